@@ -25,7 +25,6 @@ What IS proved, over the model of the compile path (`PepperModel/Comp.lean`, `Sy
     statements, by the `strand` statements and by the `structure` statements of the emitted specification.
     `prefix_disjoint`: full names under two instance prefixes `pfx ++ c1 ++ "-"`, `pfx ++ c2 ++ "-"` coincide only
     if `c1 = c2` (instance names contain no `-`: the system grammar's `var = Word(alphas, alphanums+"_")`).
-    `names_unique_tree`: uniqueness over a whole instance tree.
 (c) `path_independent`: `Sys.loadFile` reads the bundle's file-existence information only through the
     probes it hands to `resolveImport`, and `resolveImport` consults the probe only at
     `<d>/<base>.sys`, `<d>/<base>.comp` for `d` in the search list (`import_probes_only`).
